@@ -157,7 +157,12 @@ def generate(tier):
                 sh = S.Shape('enum', list(combo))
                 for oo in itertools.product(*[list(variant_options(f, True)) for f in combo]):
                     cases.append(build(sh, list(oo), cfg, 'v'))
-    return cases
+    seen, out = set(), []
+    for c in cases:
+        if c.key not in seen:
+            seen.add(c.key)
+            out.append(c)
+    return out
 
 
 RULE = ('structs and enum variants with 1..F fields (tuple and named) x every position of the Deref marker x every position '
